@@ -377,6 +377,11 @@ def main(tier):
         "CRYPTO data of any encryption level reaches the same TLS state machine (connection.py does not bind message "
         "types to packet number spaces); C11 is stated at the TLS message level",
     ]
+    # failing-input search when an obligation or the tie no longer checks
+    def search():
+        from harness import tlsrogue
+        tlsrogue.run(ctx, full=True, label="rogue-server-search")
+    ctx.search = search
     if not ok:
         return ctx.finish()
     okb, log, _ = lean.lake_build(["aqdriver"])     # the driver links the regenerated machine
